@@ -1,6 +1,7 @@
 package c18
 
 import (
+	"math"
 	"os"
 	"regexp"
 	"time"
@@ -58,7 +59,7 @@ func selectorsOf(expr parser.Expr) []selUse {
 // (shard group, file | memtable).
 func recordsOf(d *DataJ, se *SeriesJ) [][]SampleJ {
 	var cut []int64
-	if d.Flush == 2 {
+	if d.Flush == 2 || d.Flush == 3 {
 		var lo, hi int64 = 1 << 62, -(1 << 62)
 		for _, s := range d.Series {
 			for _, p := range s.Samples {
@@ -239,21 +240,25 @@ func knownClass(d *DataJ, q QueryJ) string {
 	if k10b {
 		return "grouped_aggregation_over_operator_with_on_or_ignoring"
 	}
-	// K11: instant query, a selector with a negative offset inside a vector-vector operator that is itself an operand
-	// of a vector-vector operator: the answer carries the timestamp t+|offset|
-	// K12: a comparison whose vector operand is a comparison with the scalar on the left-hand side
+	// K11: instant query, a selector with a negative offset below two or more nested operators / aggregations (at least
+	// one binary operator): the answer carries the timestamp t+|offset| or is empty
+	// K12: a comparison whose vector operand is itself a comparison with the bool modifier
 	k11, k12 := false, false
 	parser.Inspect(expr, func(node parser.Node, path []parser.Node) error {
 		switch n := node.(type) {
 		case *parser.VectorSelector:
 			if n.OriginalOffset < 0 && instant {
-				vv := 0
+				depth, bin := 0, false
 				for _, p := range path {
-					if b, ok := p.(*parser.BinaryExpr); ok && b.LHS.Type() == parser.ValueTypeVector && b.RHS.Type() == parser.ValueTypeVector {
-						vv++
+					switch p.(type) {
+					case *parser.BinaryExpr:
+						depth++
+						bin = true
+					case *parser.AggregateExpr:
+						depth++
 					}
 				}
-				if vv >= 2 {
+				if depth >= 2 && bin {
 					k11 = true
 				}
 			}
@@ -269,8 +274,7 @@ func knownClass(d *DataJ, q QueryJ) string {
 					}
 					side = p.Expr
 				}
-				if in, ok := side.(*parser.BinaryExpr); ok && in.Op.IsComparisonOperator() &&
-					in.LHS.Type() == parser.ValueTypeScalar && in.RHS.Type() == parser.ValueTypeVector {
+				if in, ok := side.(*parser.BinaryExpr); ok && in.Op.IsComparisonOperator() && in.ReturnBool {
 					k12 = true
 				}
 			}
@@ -304,10 +308,10 @@ func knownClass(d *DataJ, q QueryJ) string {
 		}
 	}
 	if k11 {
-		return "instant_negative_offset_in_nested_vector_operator"
+		return "instant_negative_offset_in_nested_operator"
 	}
 	if k12 {
-		return "comparison_of_comparison_with_scalar_on_the_left"
+		return "comparison_of_bool_comparison"
 	}
 	// K8: range query, aggregation over a selector whose offset is larger than the step
 	if q.Step > 0 {
@@ -367,8 +371,59 @@ func knownClass(d *DataJ, q QueryJ) string {
 			return "vector_vector_right_series_ends_before_left"
 		}
 	}
-	// K6: a stored record of a series holds nothing but staleness markers (e.g. the marker is in the memtable, the
-	// samples are in a file): range functions lose the neighbouring record's windows or never answer
+	// K14: min / max over an expression (not a bare selector) whose value is NaN or +-Inf at some step: the answer is
+	// -+MaxFloat64.  K15: a filtering comparison (no bool) keeps NaN samples.
+	{
+		var st *memStore
+		k14, k15 := false, false
+		special := func(e parser.Expr, inf bool) bool {
+			if st == nil {
+				st = newMemStore(d)
+			}
+			r := refQuery(st, e.String(), d.Base+q.Start, d.Base+q.End, q.Step)
+			if r.Err != "" {
+				return false
+			}
+			for _, se := range r.Series {
+				for _, p := range se.Points {
+					if math.IsNaN(p.V) || (inf && math.IsInf(p.V, 0)) {
+						return true
+					}
+				}
+			}
+			return false
+		}
+		parser.Inspect(expr, func(node parser.Node, _ []parser.Node) error {
+			switch n := node.(type) {
+			case *parser.AggregateExpr:
+				if n.Op != parser.MIN && n.Op != parser.MAX {
+					return nil
+				}
+				if _, bare := unparen(n.Expr).(*parser.VectorSelector); !bare && special(n.Expr, true) {
+					k14 = true
+				}
+			case *parser.BinaryExpr:
+				if !n.Op.IsComparisonOperator() || n.ReturnBool {
+					return nil
+				}
+				for _, side := range []parser.Expr{n.LHS, n.RHS} {
+					if side.Type() == parser.ValueTypeVector && special(side, false) {
+						k15 = true
+					}
+				}
+			}
+			return nil
+		})
+		if k14 {
+			return "min_max_over_expression_with_nan_or_inf"
+		}
+		if k15 {
+			return "filter_comparison_keeps_nan"
+		}
+	}
+	// K6: a later stored record of a series begins with (or holds nothing but) a staleness marker, e.g. the marker is
+	// in the memtable and the samples before it are in a file: range functions lose the windows that hold the samples
+	// of the earlier record, or never answer
 	for _, u := range sels {
 		if u.rng == 0 {
 			continue
@@ -382,15 +437,15 @@ func knownClass(d *DataJ, q QueryJ) string {
 			if len(recs) < 2 {
 				continue
 			}
-			for _, rec := range recs {
+			for ri, rec := range recs {
 				only := true
 				for _, p := range rec {
 					if p.V != "stale" {
 						only = false
 					}
 				}
-				if only {
-					return "record_of_only_staleness_markers"
+				if only || (ri > 0 && rec[0].V == "stale") {
+					return "record_begins_with_staleness_marker"
 				}
 			}
 		}
@@ -398,7 +453,7 @@ func knownClass(d *DataJ, q QueryJ) string {
 	if q.Step > 0 {
 		steps := q.steps()
 		for _, u := range sels {
-			if u.rng == 0 || q.Step <= u.rng {
+			if u.rng == 0 {
 				continue
 			}
 			for si := range d.Series {
@@ -416,7 +471,17 @@ func knownClass(d *DataJ, q QueryJ) string {
 							ts = append(ts, t)
 						}
 					}
+					// K4b: the query end is not on the step grid and a later stored record of the series has its first
+					// sample after the last evaluation timestamp but not after the end: the last window is lost
+					if gapFns[u.fn] && ri > 0 && len(rec) > 0 {
+						if t0 := rec[0].T + u.off; t0 > steps[len(steps)-1] && t0 <= q.End {
+							return "record_starts_between_last_step_and_end"
+						}
+					}
 					if len(ts) == 0 {
+						continue
+					}
+					if q.Step <= u.rng {
 						continue
 					}
 					// K4: every fetched sample of a stored record lies in the same gap between two evaluation windows
